@@ -14,7 +14,7 @@ from buidl.ecc import PrivateKey, S256Point
 from buidl.script import RedeemScript, Script, ScriptPubKey, WitnessScript
 from buidl.taproot import ControlBlock, MultiSigTapScript, TapLeaf, TapRootMultiSig
 from buidl.timelock import Locktime, Sequence
-from buidl.tx import Tx, TxIn, TxOut
+from buidl.tx import Tx, TxFetcher, TxIn, TxOut
 from buidl.witness import Witness
 
 from ref import secp, sighash as rs, stdverify, txmodel as tm
@@ -94,6 +94,7 @@ class Inp:
 
     def __init__(self, spec, n):
         self.spec = dict(spec)
+        self.funding = None  # reference model of the funding transaction when the object looks its spent output up itself
         self.kind = spec["kind"]
         self.keys = spec["keys"]
         self.m = spec.get("m", 1)
@@ -191,13 +192,34 @@ class World:
     def make_input(self, spec):
         inp = Inp(spec, len(self.inps))
         txid = bytes.fromhex(spec["txid"])
-        self.model["ins"].append({"txid": txid, "vout": spec["vout"], "script_sig": b"", "sequence": spec["sequence"], "witness": []})
+        vout = spec["vout"]
+        if self.plan.get("fetched"):
+            # the spent outputs are not handed to the object: it looks them up itself (fetcher cache = the wallet's transaction store).
+            # The funding transaction has three outputs to the same script with different amounts; the input spends one of them.
+            vout = spec["vout"] % 3
+            outs = [{"amount": inp.amount + 1000 * (j - vout) if inp.amount + 1000 * (j - vout) >= 0 else inp.amount + 1000 * j + 7, "spk": inp.spk} for j in range(3)]
+            outs[vout]["amount"] = inp.amount
+            inp.funding = {"version": 2, "ins": [{"txid": txid, "vout": 0, "script_sig": b"\x51", "sequence": 0xFFFFFFFF, "witness": []}], "outs": outs, "locktime": 0}
+            txid = tm.txid(inp.funding)
+            TxFetcher.cache[txid.hex()] = Tx.parse(BytesIO(tm.ser_tx(inp.funding)), network="mainnet")
+        self.model["ins"].append({"txid": txid, "vout": vout, "script_sig": b"", "sequence": spec["sequence"], "witness": []})
         self.inps.append(inp)
-        ti = TxIn(txid, spec["vout"], None, spec["sequence"])
-        ti._value = inp.amount
-        ti._script_pubkey = lib_script(inp.spk, ScriptPubKey)
+        ti = TxIn(txid, vout, None, spec["sequence"])
+        if inp.funding is None:
+            ti._value = inp.amount
+            ti._script_pubkey = lib_script(inp.spk, ScriptPubKey)
         self.dress(ti, inp)
         return ti
+
+    def hand_in(self, i):
+        """From here on the spent output of input i is handed to the object from outside (as PSBT code does), not looked up by it:
+        both values are set, they are not tied to an outpoint, and the model stops following the funding transaction."""
+        inp, ti = self.inps[i], self.tx.tx_ins[i]
+        inp.funding = None
+        ti._value = inp.amount
+        ti._value_outpoint = None
+        ti._script_pubkey = lib_script(inp.spk, ScriptPubKey)
+        ti._script_pubkey_outpoint = None
 
     def dress(self, ti, inp):
         """Put the input in the shape it has at verification time, with placeholder signatures, using the library's finalisers."""
@@ -267,6 +289,8 @@ class World:
         raw = self.tx.serialize()
         t2 = Tx.parse(BytesIO(raw), network=self.tx.network)
         for a, b, inp in zip(self.tx.tx_ins, t2.tx_ins, self.inps):
+            if inp.funding is not None and inp.spk == inp.spk_at_creation and inp.amount == inp.funding["outs"][b.prev_index % 3]["amount"]:
+                continue  # looked up by the fresh object itself
             b._value = inp.amount
             b._script_pubkey = lib_script(inp.spk, ScriptPubKey)
         return t2
@@ -356,6 +380,20 @@ class World:
             inv = {"e": "in_sequence", "i": i, "v": m["ins"][i]["sequence"]}
             m["ins"][i]["sequence"] = e["v"]
             tx.tx_ins[i].sequence = Sequence(e["v"])
+        elif k == "in_outpoint" and self.inps[e["i"] % len(m["ins"])].funding is not None:
+            # looked-up spent outputs: the input is pointed at another output of the same funding transaction (another amount)
+            i = e["i"] % len(m["ins"])
+            inp = self.inps[i]
+            if inp.spk != inp.spk_at_creation or inp.amount != inp.funding["outs"][m["ins"][i]["vout"]]["amount"]:
+                return None  # the spent output was overridden by hand before: outpoint and spent data no longer correspond
+            j = (m["ins"][i]["vout"] + 1 + e["vout"] % 2) % 3
+            old_v = m["ins"][i]["vout"]
+            # inverse: an edit whose (cur + 1 + vout % 2) % 3 lands on old_v again
+            inv = {"e": "in_outpoint", "i": i, "txid": m["ins"][i]["txid"].hex(), "vout": (old_v - j - 1) % 3}
+            m["ins"][i]["vout"] = j
+            inp.amount = inp.funding["outs"][j]["amount"]
+            tx.tx_ins[i].prev_index = j
+            self.tr.probe("outpoint_moved_within_funding_tx")
         elif k == "in_outpoint":
             i = e["i"] % len(m["ins"])
             inv = {"e": "in_outpoint", "i": i, "txid": m["ins"][i]["txid"].hex(), "vout": m["ins"][i]["vout"]}
@@ -389,7 +427,7 @@ class World:
             i = e["i"] % len(m["ins"])
             inv = {"e": "spent_amount", "i": i, "v": self.inps[i].amount}
             self.inps[i].amount = e["v"]
-            tx.tx_ins[i]._value = e["v"]
+            self.hand_in(i)
         elif k == "spent_script":
             i = e["i"] % len(m["ins"])
             inv = {"e": "spent_script", "i": i, "spk": self.inps[i].spk.hex()}
@@ -409,7 +447,7 @@ class World:
             else:
                 new_spk = tm.spk_p2tr(h)
             self.inps[i].spk = new_spk
-            tx.tx_ins[i]._script_pubkey = lib_script(new_spk, ScriptPubKey)
+            self.hand_in(i)
         elif k == "annex":
             i = e["i"] % len(m["ins"])
             inp = self.inps[i]
@@ -439,7 +477,7 @@ class World:
             inv = {"e": "releaf", "i": i, "spec": old.spec, "spk_override": old.spk.hex()}
             self.inps[i] = new
             ti = tx.tx_ins[i]
-            ti._script_pubkey = lib_script(new.spk, ScriptPubKey)
+            self.hand_in(i)
             if e.get("via_init") and len(new.keys) > 1:
                 points = [S256Point.parse_xonly(secp.xonly(pub(x))) for x in new.keys]
                 ti.witness = Witness()
@@ -1179,8 +1217,27 @@ class World:
 
 
 def execute(plan, prop, trace):
+    import buidl.tx as btx
+    from urllib.error import URLError
+
+    def no_explorer(*a, **k):
+        raise URLError("simulated: no block explorer in this world")
+
+    saved_cache, saved_urlopen = TxFetcher.cache, btx.urlopen
+    TxFetcher.cache = {}
+    btx.urlopen = no_explorer
+    try:
+        return _execute(plan, prop, trace)
+    finally:
+        TxFetcher.cache = saved_cache
+        btx.urlopen = saved_urlopen
+
+
+def _execute(plan, prop, trace):
     _TR[0] = trace
     w = World(plan, prop, trace)
+    if plan.get("fetched"):
+        trace.fault("spent_outputs_looked_up_by_the_object")
     for st in plan["steps"]:
         op = st["op"]
         if op == "query":
@@ -1290,6 +1347,7 @@ def generate(ch, tier, prop):
             "outputs": [{"amount": gen_amount(ch), "spk": gen_spk(ch)} for _ in range(n_out)], "steps": []}
     steps = plan["steps"]
     if prop == "C05":
+        plan["fetched"] = ch.chance(0.25)
         fault_free = ch.chance(0.2)
         for _ in range(ch.randrange(3, 25)):
             r = ch.random()
